@@ -191,6 +191,8 @@ class G:
             i = self.int_value("index", sr if sr != "cur" else None)
             idx = ("int", 1, "short") if i == 1 and r.random() < 0.5 else self.lit(i)
             return (r.choice(["offset", "offset", "length"]), sr, idx)
+        if r.random() < 0.12:
+            return ("read", r.choice(list(RD_KINDS)), ("undef", "i") if r.random() < 0.5 else self.mod("i"))
         return ("read", r.choice(list(RD_KINDS)), self.lit(self.read_offset()))
 
     def read_offset(self):
